@@ -452,9 +452,9 @@ PLAN = {
     'C20': dict(
         vlex=dict(defs=['B1', 'B2', 'B5', 'B7', 'E3', 'S1', 'S3', 'Q2', 'L1', 'U2'], defs_thorough=VLEX_ALL, canary_defs=['B5']),
         level='model_checking', engine='verus+kani',
-        kani=klex_suite('K-lex read trace', SPEC_KINDS, ['B1', 'B2', 'B3', 'B5', 'B7', 'E1', 'E3', 'S1', 'S2', 'U1', 'K1'],
+        kani=klex_suite('K-lex read trace', SPEC_KINDS, ['B1', 'B2', 'B3', 'B5', 'B7', 'E1', 'E3', 'S1', 'S2', 'U1', 'K1', 'E2'],
                         covers=['C20 monitor: at least two reads traced', 'token produced'], configs=(('verif_hooks',),), quick_per_def=6, quick_cost=60,
-                        always=['ctx_B7__23abcdefghijklmnopqrstuvwx_q_s0', 'ctx_B5_abcdefghijklmnop_q_s0'],
+                        always=['ctx_B7__23abcdefghijklmnopqrstuvwx_q_s0', 'ctx_B5_abcdefghijklmnop_q_s0', 'ctx_E2__q_q_q_s0'],
                         bounded=BOUND_NOTE % 'B1, B2, B3, B5, E1, S1, S2, U1, K1 with the ghost read-trace monitor of the verif_hooks feature'),
         kani_extra=None,
         technique='Verus proof (V-lex) with ghost state in the generated code of the corpus definitions: within an attempt the offsets passed to LexerInternal::read never decrease, for all inputs; bounded model checking (Kani) with a ghost read-trace monitor (feature verif_hooks): offsets never decrease within an attempt, never fall below its start, reads <= 4 x bytes examined + 4',
